@@ -34,6 +34,7 @@ type Config struct {
 	Verbose       bool
 	KnownOpen     map[string]bool // known-finding ids that are open (vknown returns its condition)
 	Asserts       []string        // assertion-id prefixes the running property selects (nil: all)
+	ViolAt        *int64          // shared by the tasks of one check: unix time of the first new violation (0: none yet)
 	Deadline      time.Time       // wall-clock limit of the whole check (zero: none)
 	StopFlag      *int32          // shared by the tasks of one check: set once enough new violations were found
 }
@@ -85,6 +86,7 @@ type TaskResult struct {
 	Samples      []Sample
 	MaxPC        int
 	Witnesses    []Violation
+	Diversified  int64 // violations found by evaluating the goal under diversified models of the path condition after the solver answered unknown
 	Fallbacks    int64 // assertion verdicts obtained from a second solver after the first answered unknown
 	Repairs      int64 // sat answers found by model repair + evaluation instead of the solver
 }
@@ -320,6 +322,11 @@ func (e *Engine) worker(helper bool) {
 			e.res.Inconclusive = append(e.res.Inconclusive, "budget: process memory above the limit; exploration stopped")
 			e.stopAll = true
 		}
+		if !e.stopAll && e.cfg.ViolAt != nil && (len(e.queue) > 0 || e.inflight > 0) {
+			if at := atomic.LoadInt64(e.cfg.ViolAt); at != 0 && time.Now().Unix() > at+300 {
+				e.stopAll = true
+			}
+		}
 		if !e.stopAll && !e.cfg.Deadline.IsZero() && time.Now().After(e.cfg.Deadline) && (len(e.queue) > 0 || e.inflight > 0) {
 			e.res.Inconclusive = append(e.res.Inconclusive, "budget: wall-clock limit of the check reached; exploration stopped")
 			e.stopAll = true
@@ -390,6 +397,11 @@ func (e *Engine) enoughViolations() bool {
 			continue
 		}
 		n++
+	}
+	if n > 0 && e.cfg.ViolAt != nil {
+		// the verdict of the check is fixed by the first new violation: whatever is still being explored gets
+		// five more minutes (a broken tree can make the remaining paths arbitrarily expensive)
+		atomic.CompareAndSwapInt64(e.cfg.ViolAt, 0, time.Now().Unix())
 	}
 	return n >= 6
 }
